@@ -19,17 +19,17 @@ P = {
  'C07': ('proptest histories + BFS state sweep; oracle: no non-modifier in the folded output after a no-repeat firing, outputs pressed in the step, no key held again until the next press', '5/C07', 'Firing is taken from the model (non-absorbing) or from distinguished keys / Repeating results (absorbing).'),
  'C08': ('proptest histories + BFS state sweep with absorb windows in the pruning key; oracle: absorb-window monitor over distinguished keys and the folded output', '5/C08', 'The sweep is essential: the repaired defect needs one specific 6-event history on a rare layout shape; random search alone missed it in 300k cases.'),
  'C09': ('proptest histories + BFS state sweep; oracle: StepResult.repeat vs fired mapping / ignored-event rule (unique repeat parameters identify the mapping)', '5/C09', 'Exact in non-absorbing layouts, observable-only in absorbing ones.'),
- 'C10': ('proptest (layout, history, delivery schedule) against the real per-device loop through a scripted driver; oracle: trace monitor (lost wake-up, end of device) + twin mapper differential', '5/C10', 'Edge-triggered two-device world model with batching, mid-drain arrivals, spurious time-outs/readiness, one interruption, end of device in the same or a later wake-up.'),
+ 'C10': ('proptest (layout, history, delivery schedule) against the real per-device loop through a scripted driver; oracle: trace monitor (lost wake-up, end of device) + twin mapper differential; plus generated runs of the loop on the repository real driver (epoll, device readers, uinput writer) over harness-owned socket pairs and a pipe, judged at quiescent points against the twin mapper', '5/C10', 'Edge-triggered two-device world model with batching, mid-drain arrivals, spurious time-outs/readiness, one interruption, end of device in the same or a later wake-up.'),
  'C11': ('proptest schedules with time-outs against the real loop; oracle: interval arithmetic on the real monotonic clock (true bounds, no tolerance) + chord content/transience fold', '5/C11', 'Deadlines demanded by delay + n*interval are intersected with the interval the loop can have aimed at; a slice of cases really sleeps until the deadline so that a missing chord is caught.'),
- 'C12': ('proptest schedules with tablet on/off placements against the real loop; oracle: trace monitor (release batch, silence while on, fresh-mapper differential after a change)', '5/C12', 'Tablet events anywhere: repeated, during chords, with a repeat pending, in the same wake-up as keyboard events in either report order.'),
+ 'C12': ('proptest schedules with tablet on/off placements against the real loop; oracle: trace monitor (release batch, silence while on, fresh-mapper differential after a change, no timer chord without a firing since the last change); plus generated runs on the real driver over socket pairs (release batch, silence, fresh start read from the sink)', '5/C12', 'Tablet events anywhere: repeated, during chords, with a repeat pending, in the same wake-up as keyboard events in either report order.'),
  'C13': ('grammar-based program generation (proptest) + independent reference expander (translation validation), respelling metamorphic relation, must-reject mutants, exhaustive row x character x position table sweep', '5/C13', 'Every generated program is converted by the real loader and compared with a reference expansion written from the README and the property text with its own tables.'),
  'C14': ('proptest JSON trees over a vocabulary, structure-aware mutants of valid layouts, byte damage; libFuzzer target in the thorough tier; oracle: no panic in load / install / drive', '5/C14', 'Every input goes through load_layout_from_file; accepted layouts are installed in the mapper and driven with a generated history under catch_unwind.'),
  'C15': ('round-trip property (proptest) + exhaustive sweep over all key codes; oracle: saved-then-loaded layout equals the original mapping list', '5/C15', 'Save path (serde) and load path (shorthand parser + converter) are connected exactly as the systemd service connects them.'),
- 'C16': ('proptest device-list texts from archetypes with dropped fields (context-independence metamorphic relation, two-extractor differential, ground truth by construction) + end-to-end runs of the real listing/filter code and the real binary on a fabricated /proc,/sys,/dev in a private mount namespace; reference glob matcher', '5/C16', 'Both extractors, the virtual-device filter, the exclude filter and both device-selection routes are exercised on generated device lists; a sample of cases goes through the unmodified binary.'),
+ 'C16': ('proptest device-list texts from archetypes with dropped fields (context-independence metamorphic relation, two-extractor differential, ground truth by construction) + end-to-end runs of the real listing/filter code and the real binary on a fabricated /proc,/sys,/dev in a private mount namespace; reference glob matcher; device names in generated spelling variants of the words the code looks for', '5/C16', 'Both extractors, the virtual-device filter, the exclude filter and both device-selection routes are exercised on generated device lists; a sample of cases goes through the unmodified binary.'),
  'C17': ('exhaustive enumeration of all single scalar values and all pairs/triples over the syntax alphabet + proptest strings and lists (long lists, tokens harvested from the source text); oracle: independent decoder of systemd ExecStart= rules', '5/C17', 'The unit text produced by the real code is decoded by an independent implementation of systemd\'s documented rules and compared byte for byte.'),
- 'C18': ('exhaustive enumeration over key codes and over foreign (type, code) pairs + proptest batches and foreign-record streams; oracle: libc::input_event layout, kernel header key codes, writer->reader round trip over a pipe', '5/C18', 'The writer runs on a memfd, the reader on a non-blocking pipe; no uinput/evdev device is needed.'),
+ 'C18': ('exhaustive enumeration over key codes and over foreign (type, code) pairs + proptest batches and foreign-record streams; oracle: libc::input_event layout, kernel header key codes, writer->reader round trip over a pipe; sessions through one writer with rejected, short and full-then-drained sinks', '5/C18', 'The writer runs on a memfd, the reader on a non-blocking pipe; no uinput/evdev device is needed.'),
  'C19': ('proptest histories (random, typing, marathon, giant-layout and rollover stages) + BFS state sweep; libFuzzer campaign in the thorough tier; oracle: press only when up / release only when down over the concatenated output stream', '5/C19', 'Same generators as C01; the fold runs over every step and every release_all batch.'),
- 'C20': ('fault injection: for each generated scripted run, the k-th driver call fails for every k (all up to 256 calls, a generated subset beyond) + interrupt-storm slice; oracle: returned error carries the injected marker, no write after the fault, writes are a prefix of the fault-free run', '5/C20', 'One fault per run, enumerated over every driver call of the run.'),
+ 'C20': ('fault injection: for each generated scripted run, the k-th driver call fails for every k (all up to 256 calls, a generated subset beyond) + interrupt-storm slice; oracle: returned error carries the injected marker, no write after the fault, writes are a prefix of the fault-free run; plus runs on the real driver ending in a real EPIPE on the sink or ECONNRESET on the keyboard / tablet socket', '5/C20', 'One fault per run, enumerated over every driver call of the run.'),
 }
 
 LEVEL = {k: 'exploration' for k in P}
